@@ -24,6 +24,13 @@ func NewTyCtx() *TyCtx {
 	return &TyCtx{vars: map[string]*types.Type{}, back: map[string]string{}, shared: map[string]*types.Type{}}
 }
 
+// Fork returns a context that shares the type variables but has its own
+// cache of shared sub-terms (so that sharing happens inside one type, not
+// across two).
+func (c *TyCtx) Fork() *TyCtx {
+	return &TyCtx{vars: c.vars, back: c.back, Share: c.Share, shared: map[string]*types.Type{}}
+}
+
 // VarName maps a yae type-variable name back to the model name.
 func (c *TyCtx) VarName(yaeName string) (string, bool) {
 	n, ok := c.back[yaeName]
